@@ -5,6 +5,7 @@ import DdnnfVerif.Model.Session
 import DdnnfVerif.Proofs.Paging
 import DdnnfVerif.Proofs.MarkState
 import DdnnfVerif.Proofs.ConfigPrep
+import DdnnfVerif.Proofs.LoadAll
 namespace Ddnnf.C16
 
 /-- a non-paging request is answered from the model and the request alone, and leaves the state unchanged -/
@@ -91,5 +92,16 @@ theorem config_preparation_leaves_a_clean_state (nodes : List NType) (n : Nat) (
     (h : MS.prepareConfigs nodes n s A = some (s', r)) :
     r = execQuery nodes n A ∧ MS.Clean s' ∧ MS.CountsOK nodes s' :=
   MS.prepareConfigs_spec nodes n htopo hne hu hpar s hclean hcnt A s' r h
+
+/-- the same for every model loaded from a d4 text that passes the conventions check — no per-input
+hypothesis about the node array is left: any sequence of counting requests on the long-lived loaded
+instance, whatever the scratch fields held, is answered like requests on fresh instances -/
+theorem counting_history_is_irrelevant_for_loaded_models (lines : List D4.Line) (total : Nat)
+    (h : D4.conventions2B lines total = true) (tmp : Nat → Nat) (reqs : List (List Int)) :
+    (MS.runSt (D4.load lines total).2.1 (D4.load lines total).1
+        (MS.initSt (D4.load lines total).2.1 tmp) reqs).2 =
+      reqs.map (execQuery (D4.load lines total).2.1 (D4.load lines total).1) := by
+  obtain ⟨hwf, hu, hpar⟩ := D4.conventions2B_sound lines total h
+  exact MS.history_independent _ _ hwf.topo hwf.nonempty hu hpar tmp reqs
 
 end Ddnnf.C16
